@@ -70,6 +70,11 @@ fn gen_file(rng: &mut Rng, alpha: &[&str], pool: &[String]) -> String {
     let lines = rng.usize(0, 8);
     let mut s = String::new();
     for _ in 0..lines {
+        if rng.chance(0.03) {
+            // a line that is not valid UTF-8 on disk
+            s.push_str(&format!("ab {}a b\n", crate::c20::BAD));
+            continue;
+        }
         let n = rng.usize(0, 6);
         let ws: Vec<String> = (0..n)
             .map(|_| if rng.chance(0.7) { rng.pick(pool).clone() } else { gen_word(rng, alpha) })
@@ -96,10 +101,23 @@ type Seg = Vec<(Vec<Vec<u8>>, usize)>;
 
 /// words (with leading whitespace, as the trainer counts them) of the corpus
 fn reference_words(sc: &C19) -> BTreeMap<String, usize> {
+    reference_words_with(sc, &vec![false; sc.files.len()])
+}
+
+/// Two readings of a line that is not valid UTF-8 are accepted per file: the line alone is
+/// skipped (what the code does today, `stop_file[i] == false`) or reading of that file ends
+/// there. Other files are never affected.
+fn reference_words_with(sc: &C19, stop_file: &[bool]) -> BTreeMap<String, usize> {
     let mut counts: BTreeMap<String, usize> = BTreeMap::new();
     let take = sc.max_lines_per_file.unwrap_or(usize::MAX);
-    for f in &sc.files {
+    for (fi, f) in sc.files.iter().enumerate() {
         for line in f.lines().take(take) {
+            if line.contains(crate::c20::BAD) {
+                if stop_file[fi] {
+                    break;
+                }
+                continue;
+            }
             let mut line = clean(line, true);
             if let Some(n) = norm_of(sc.normalization) {
                 line = normalize(&line, n, true);
@@ -355,7 +373,7 @@ impl Scenario for C19 {
         let mut paths = vec![];
         for (i, f) in self.files.iter().enumerate() {
             let p = dir.path(&format!("f{i}.txt"));
-            std::fs::write(&p, f).expect("write corpus file");
+            std::fs::write(&p, crate::c20::file_bytes(f)).expect("write corpus file");
             paths.push(p);
         }
         let mut stats = RunStats::default();
@@ -419,7 +437,43 @@ impl Scenario for C19 {
             }
             let res = slot.lock().unwrap().take();
             violation = match (&r.status, res) {
-                (Status::Completed, Some(Ok(()))) => self.judge(t, &out_file, &words, &mut stats),
+                (Status::Completed, Some(Ok(()))) => {
+                    let bad = crate::c20::files_with_bad_lines(&self.files);
+                    if bad.is_empty() {
+                        self.judge(t, &out_file, &words, &mut stats)
+                    } else {
+                        stats.probe("runs_with_undecodable_lines", 1);
+                        let mut first = None;
+                        let mut accepted = false;
+                        for mask in 0..(1u32 << bad.len().min(4)) {
+                            let mut stop = vec![false; self.files.len()];
+                            for (bit, fi) in bad.iter().enumerate().take(4) {
+                                stop[*fi] = mask & (1 << bit) != 0;
+                            }
+                            let mut tmp = RunStats::default();
+                            match self.judge(t, &out_file, &reference_words_with(self, &stop), &mut tmp) {
+                                None => {
+                                    stats.merge(&tmp, &[]);
+                                    accepted = true;
+                                    break;
+                                }
+                                Some(v) => {
+                                    if first.is_none() {
+                                        first = Some(v);
+                                    }
+                                }
+                            }
+                        }
+                        if accepted {
+                            None
+                        } else {
+                            first.map(|mut v| {
+                                v.detail = format!("(with undecodable lines; no accepted reading of them explains the table) {}", v.detail);
+                                v
+                            })
+                        }
+                    }
+                }
                 (Status::Completed, Some(Err(e))) => Some(Violation { class: "train:error".into(), detail: format!("num_threads={t}: train_bpe returned an error: {e}") }),
                 (s, _) => {
                     let class = match s {
